@@ -81,3 +81,21 @@ Theorem writer_narrow_lock_refuted :
   t_out (w_b st) = whdr 3 ++ [x0a; x0b; x0c] /\ t_out (w_a st) = whdr 2 /\
   t_out (w_b st) <> wframe (enc false).
 Proof. cbv zeta. vm_compute. repeat split; try reflexivity. discriminate. Qed.
+
+(* ---------- sequences: the framed buffer is the encoder's buffer, for ever ---------- *)
+(* every request of every sequence on one writer is framed as its own field section, whatever sizes
+   came before (the buffer is reset, never replaced: encoder and framing keep sharing it) *)
+Theorem writer_seq_frames_own_section sections : bw_run None bw_init sections = map wframe sections.
+Proof.
+  assert (G : forall cap, bw_run None {| bw_same := true; bw_enc := []; bw_frm := []; bw_cap := cap |} sections = map wframe sections).
+  { induction sections as [|s r IH]; intro cap; [reflexivity|]. cbn [bw_run bw_request bw_same bw_enc bw_frm bw_cap app map].
+    f_equal. apply IH. }
+  apply G.
+Qed.
+
+(* installing a fresh buffer once the old one has grown past a threshold, with the encoder still
+   bound to the old one: the large request is fine, every later one is an empty HEADERS frame *)
+Theorem writer_seq_fresh_buffer_refuted :
+  let big := repeat x61 20 in
+  bw_run (Some 16) bw_init [[x01]; big; [x02]; [x03]] = [wframe [x01]; wframe big; whdr 0; whdr 0].
+Proof. cbv zeta. vm_compute. reflexivity. Qed.
